@@ -397,13 +397,13 @@ def callBuiltin (name : String) (args : List Val) : M Val := do
     -- first falsy argument, else the last
     let r := (x :: rest).find? (fun v => !truth h v)
     pure (match r with
-      | some v => if v matches .invalid then .invalid else convertRaw v
-      | none => let l := (x :: rest).getLast?.getD x; if l matches .invalid then .invalid else convertRaw l)
+      | some v => if v.isInvalid then .invalid else convertRaw v
+      | none => let l := (x :: rest).getLast?.getD x; if l.isInvalid then .invalid else convertRaw l)
   | some "or", x :: rest =>
     let r := (x :: rest).find? (fun v => truth h v)
     pure (match r with
       | some v => convertRaw v
-      | none => let l := (x :: rest).getLast?.getD x; if l matches .invalid then .invalid else convertRaw l)
+      | none => let l := (x :: rest).getLast?.getD x; if l.isInvalid then .invalid else convertRaw l)
   | some "index", item :: idxs => indexFn item idxs
   | some "runtimeJSON", [v] => do
     let s ← ofOpt (marshal h (strFuel h) v) "json.Marshal outside domain"
@@ -581,6 +581,21 @@ def rangeKind (v : Val) : M RangeKind := do
   | .attrs l => if l.isEmpty then pure .nothing else domainErr "range over attribute list"
   | _ => execErr "range can't iterate over"
 
+/-- the `reflect.Bool` case of walkRange, for an arbitrary body and test:
+    `for val.Bool() { oneIteration; val = evalPipeline; i++; if i > cap { errorf } }` — entered with val = true.
+    `i` counts completed iterations. -/
+def loopM (body : M Unit) (test : M Val) : Nat → Nat → M Unit
+  | 0, _ => throwE .fuel
+  | fuel + 1, i => do
+    body
+    let v ← test
+    if overCap (i + 1) then execErr s!"max iteration of {Gen.whileCap} in while loop"
+    else
+      match v with
+      | .B true | .bool true => loopM body test fuel (i + 1)
+      | .B false | .bool false => pure ()
+      | _ => throwE (.panic "reflect: call of reflect.Value.Bool on non-bool Value")
+
 structure Env where
   defs : List (String × List TNode)
 
@@ -609,7 +624,7 @@ def walk : Nat → Env → TNode → M Unit
       match ← rangeKind v with
       | .nothing => pure ()
       | .items l => walkItems fuel env decl body l
-      | .whileTrue => walkWhile fuel env decl e body 0
+      | .whileTrue => loopM (walkList fuel env body) (evalExpr fuel e) fuel 0
     | .template _ _ => domainErr "template invocation"
 
 def walkList : Nat → Env → List TNode → M Unit
@@ -631,19 +646,6 @@ def walkItems : Nat → Env → List String → List TNode → List (Val × Val)
     walkList fuel env body
     walkItems fuel env decl body rest
 
-/-- `for val.Bool() { oneIteration; val = evalPipeline; i++; if i > cap { errorf } }` — entered with val = true -/
-def walkWhile : Nat → Env → List String → TExpr → List TNode → Nat → M Unit
-  | 0, _, _, _, _, _ => throwE .fuel
-  | fuel + 1, env, decl, e, body, i => do
-    walkList fuel env body
-    let v ← evalExpr fuel e
-    let i := i + 1
-    if overCap i then execErr s!"max iteration of {Gen.whileCap} in while loop"
-    else
-      match v with
-      | .B true | .bool true => walkWhile fuel env decl e body i
-      | .B false | .bool false => pure ()
-      | _ => throwE (.panic "reflect: call of reflect.Value.Bool on non-bool Value")
 end
 
 end Pug.Tpl
